@@ -196,7 +196,11 @@ def gen(seed, V, tier, index, bias=None):
                 s = rng.choice(FASTA)
             which = rng.random()
             tt = rng.choice(live_tables + ["public"])
-            if which < 0.6:
+            if which < 0.12 and s.strip() and ":" not in s:
+                dst = rng.choice(live_tables + ["public", None])
+                ev = ["formula_reuse", tt, s if "//" not in s else "H2O@1",
+                      rng.choice(["formula", "mix_weight", "mix_volume", "nsld", "nscat", "d2o"]), dst]
+            elif which < 0.6:
                 ev = ["formula", tt, s, rng.choice(FORMULA_HOW)]
             elif which < 0.75:
                 ev = ["mix", tt, rng.choice(["weight", "volume"]), ["H2O@1", 1, "D2O@1.1", 2]]
@@ -334,6 +338,11 @@ def c10_strata():
                                          "crystal_structure", "magnetic_ff", "activation"]]
     for g in E.LAZY_GROUPS:
         out.append(two + [["mutate_walk", "T1", g, 3, "instance"]])
+    # a formula object of one table handed to an entry point together with another table
+    for op in ("formula", "mix_weight", "mix_volume", "nsld", "nscat", "d2o"):
+        out.append([["newtable", "T1"], ["init", "T1", "mass", False], ["init", "T1", "density", False],
+                    ["formula_reuse", "T1", "H2O@1", op, "public"], ["formula_reuse", "public", "H2O@1", op, "T1"],
+                    ["formula_reuse", "T1", "H2O@1", op, None]])
     # symmetric isolation: the public table is customised after / before a private table is built
     for target, atom in (("_mass", [1, 0, 0]), ("_density", [26, 0, 0]), ("crystal_structure_inplace", [26, 0, 0]),
                          ("neutron_field", [26, 0, 0]), ("xray_sftable_inplace", [26, 0, 0]),
